@@ -328,7 +328,7 @@ package server
 
 //@ func (*LockManager).checkLockedCountEqual
 //@   requires lock != nil && command != nil && lock.command != nil
-//@   ensures C06.equal.counts: result == (command.Count == lock.command.Count && command.Rcount == lock.command.Rcount && command.TimeoutFlag&0x10 == lock.command.TimeoutFlag&0x10)
+//@   ensures C06.equal.counts,C16.equal.counts: result == (command.Count == lock.command.Count && command.Rcount == lock.command.Rcount && command.TimeoutFlag&0x10 == lock.command.TimeoutFlag&0x10)
 //@   modifies nothing
 
 // "an update that would move the deadline by at most one unit of expiry granularity may be ignored"
@@ -337,6 +337,10 @@ package server
 //@   requires lock.expriedTime >= 0
 //@   ensures C06.equal.ignored: implies(result && command.ExpriedFlag&0x4400 == 0, abs(self.lockDb.currentTime + unitSeconds(command.Expried, command.ExpriedFlag) + 1 - lock.expriedTime) <= ite(command.ExpriedFlag&0x40 != 0, 60, 1))
 //@   ensures C06.equal.counts2: implies(result, command.Count == lock.command.Count && command.Rcount == lock.command.Rcount)
+// and the converse, which the compaction relies on (HasLock keeps the record of a renewal exactly when the live hold still has
+// its terms): a request whose deadline is within one unit of granularity of the hold's and whose counts and priority mode are the
+// hold's is recognised as "the same terms"
+//@   ensures C16.equal.complete,C06.equal.complete: implies(command.ExpriedFlag&0x4400 == 0 && abs(self.lockDb.currentTime + unitSeconds(command.Expried, command.ExpriedFlag) + 1 - lock.expriedTime) <= ite(command.ExpriedFlag&0x40 != 0, 60, 1) && command.Count == lock.command.Count && command.Rcount == lock.command.Rcount && command.TimeoutFlag&0x0010 == lock.command.TimeoutFlag&0x0010, result)
 //@   modifies nothing
 
 //@ func (*LockManager).UpdateLockedLock
@@ -1501,6 +1505,20 @@ package server
 //@   at call freeLockQueue assert C07.queue.advance-first,C11.queue.advance-first: arg1 != nil && self.queueHead == arg1.next
 //@   modifies all
 
+// C15/C11: the undo record of a hold is kept as long as anything in it is still needed: it is empty only when it holds no
+// log value, no value snapshot of the operation (currentData) and no deferred commands
+//@ func (*LockData).IsEmpty
+//@   requires self != nil
+//@   ensures C15.undo.kept,C11.undo.kept: result == (isnil(self.aofData) && self.currentData == nil && self.commandDatas == nil)
+//@   modifies nothing
+
+// C11/C10: a leader that steps down (whatever its server state says by then: the arbiter's voluntary resignation flips the state
+// first) goes on to fail its pending require-ack holds; only a node that is already following that very address returns early
+//@ func (*ReplicationManager).SwitchToFollower
+//@   requires self != nil && self.slock != nil
+//@   ensures C11.demote.fails-pending,C10.demote.fails-pending: implies(old(self.isLeader) && calls(New) == 0, calls(ReplicationUpdate) == 1)
+//@   modifies all
+
 // C16/C08: a rotation that cannot open the next append file leaves the log where it was: the current file index
 // still names the newest file that exists (the compaction treats every file below the current index as a closed
 // input, and the next rotation attempt derives the next name from it)
@@ -1726,7 +1744,7 @@ package server
 //@ func (*LockDB).checkMillisecondExpried
 //@   requires self != nil
 //@   at call doExpried assert C10.sweep.unforced,C06.sweep.unforced: !arg2
-//@   loop#2 backedge C06.ms.handover: implies(nodeQueues[j] != nil, !lock.expried && lock.command.Expried < MILLISECOND_QUEUE_LENGTH)
+//@   loop#2 backedge C06.ms.handover,C19.ms.handover,C01.ms.handover: implies(nodeQueues[j] != nil, !lock.expried && lock.command.Expried < MILLISECOND_QUEUE_LENGTH)
 //@   loop#2 backedge C17.ms.reclaim: implies(calls(FreeLock) > athead(calls(FreeLock)) && athead(lock.manager) != nil && athead(lock.manager).refCount == 0, calls(addWaitRemoveLockManager) > athead(calls(addWaitRemoveLockManager)))
 //@   modifies all
 
@@ -1857,10 +1875,13 @@ package server
 // by ProcessLockResultCommandLocked instead of being parked as the answer to the next command
 //@ func (*TextServerProtocol).ProcessLockResultCommand
 //@   requires self != nil && lockCommand != nil
-//@   ensures C03.text.cleared: old(self.closed) || old(self.lockRequestId) != lockCommand.RequestId || forall(k, 0, 16, self.lockRequestId[k] == 0)
+//@   ensures C03.text.cleared,C14.text.cleared,C18.text.cleared: old(self.closed) || old(self.lockRequestId) != lockCommand.RequestId || forall(k, 0, 16, self.lockRequestId[k] == 0)
 //@   ensures C03.text.awaited: implies(!old(self.closed) && old(self.lockRequestId) != lockCommand.RequestId, calls(chansend) == 0 && isnil(result0) && self.freeCommandResult == old(self.freeCommandResult))
 //@   ensures C03.text.parked-once: implies(!old(self.closed) && old(self.lockRequestId) == lockCommand.RequestId, calls(chansend) == 1)
 //@   ensures C18.text.closed-drops: implies(old(self.closed), !isnil(result0))
+// the reply object parked for the handler says whether it carries a value exactly when it does (the object is recycled per
+// connection: a flag left over from an earlier reply makes the renderer read a value that is not there)
+//@   at call chansend assert C13.text.flag-matches-data,C14.text.flag-matches-data,C15.text.flag-matches-data: lockResultCommad.Flag == ite(isnil(data), 0, protocol.LOCK_FLAG_CONTAINS_DATA)
 //@   modifies all
 //@ func (*TextServerProtocol).ProcessLockResultCommandLocked
 //@   requires self != nil && command != nil
